@@ -2,8 +2,11 @@ package main
 
 import (
 	"context"
+	"encoding/json"
 	"flag"
 	"fmt"
+	"io"
+	"net/http"
 	"strconv"
 	"strings"
 	"sync"
@@ -212,3 +215,57 @@ func init() {
 	commands["fields-extra"] = cmdFieldsExtra
 	commands["publish-same"] = cmdPublishSame
 }
+
+// ---- DefaultValidator / NoopValidator against Validator.tla's table ----
+
+func cmdValidator(args []string) {
+	fs := flag.NewFlagSet("validator", flag.ExitOnError)
+	in := fs.String("in", "", "table exported by Validator.tla")
+	out := fs.String("out", "", "result file")
+	fs.Parse(args)
+	res := newResult()
+	eachLine(*in, 1, func(line []byte, _ int) {
+		var tb struct {
+			Cases []struct {
+				Status    int    `json:"status"`
+				CT        string `json:"ct"`
+				DefaultOK bool   `json:"default_ok"`
+				NoopOK    bool   `json:"noop_ok"`
+			} `json:"cases"`
+		}
+		if err := json.Unmarshal(line, &tb); err != nil {
+			fatal("bad table: %v", err)
+		}
+		for _, c := range tb.Cases {
+			r := &http.Response{StatusCode: c.Status, Header: http.Header{}}
+			if c.CT != "<absent>" {
+				r.Header.Set("Content-Type", c.CT)
+			}
+			res.eval(2)
+			res.nontrivial(fmt.Sprintf("%d/%s", c.Status, c.CT))
+			det := map[string]any{"driver": "validator", "case": c}
+			if err := sse.DefaultValidator(r); (err == nil) != c.DefaultOK {
+				res.violate(fmt.Sprintf("DefaultValidator(status %d, Content-Type %q) = %v, spec: accepted=%v", c.Status, c.CT, err, c.DefaultOK), "validator:default", det)
+			}
+			if err := sse.NoopValidator(r); (err == nil) != c.NoopOK {
+				res.violate(fmt.Sprintf("NoopValidator(status %d, Content-Type %q) = %v, spec: accepted=%v", c.Status, c.CT, err, c.NoopOK), "validator:noop", det)
+			}
+			// a Client without a validator applies the default one
+			var got error
+			cl := &sse.Client{HTTPClient: &http.Client{Transport: rtFunc(func(q *http.Request) (*http.Response, error) {
+				r2 := &http.Response{StatusCode: c.Status, Header: r.Header.Clone(), Body: io.NopCloser(strings.NewReader("")), Request: q}
+				return r2, nil
+			})}, Backoff: sse.Backoff{MaxRetries: -1}}
+			q, _ := http.NewRequest(http.MethodGet, "http://verif.invalid/", http.NoBody)
+			got = cl.NewConnection(q).Connect()
+			rejected := got != nil && strings.Contains(got.Error(), "response validation failed")
+			if rejected == c.DefaultOK {
+				res.violate(fmt.Sprintf("a Client without ResponseValidator on (status %d, Content-Type %q): Connect returned %v, spec: accepted=%v", c.Status, c.CT, got, c.DefaultOK), "validator:client", det)
+			}
+		}
+		res.Behaviours = len(tb.Cases)
+	})
+	res.write(*out)
+}
+
+func init() { commands["validator"] = cmdValidator }
